@@ -24,13 +24,18 @@ EXPLANATION = (
 ASSUMPTIONS = ["Python calls __getattr__ only after normal lookup failed", "C01 W1: link fields are per object and written only by their owner"]
 
 
-def local_table(func, param):
-    """string sets the function compares `param` against with in / =="""
+def local_table(func, param, program=None):
+    """string sets the function compares `param` against with in / == (constants folded)"""
+    from .common import const_strings
     out = []
     for n in walk_own(func.node):
         if isinstance(n, ast.Compare) and len(n.ops) == 1 and isinstance(n.left, ast.Name) and n.left.id == param:
-            if isinstance(n.ops[0], ast.In) and isinstance(n.comparators[0], (ast.Tuple, ast.List, ast.Set)):
-                out.append((n, {e.value for e in n.comparators[0].elts if isinstance(e, ast.Constant)}))
+            if isinstance(n.ops[0], ast.In):
+                vals = const_strings(program, func, n.comparators[0]) if program is not None else None
+                if vals is None and isinstance(n.comparators[0], (ast.Tuple, ast.List, ast.Set)):
+                    vals = {e.value for e in n.comparators[0].elts if isinstance(e, ast.Constant)}
+                if vals is not None:
+                    out.append((n, vals))
             elif isinstance(n.ops[0], ast.Eq) and isinstance(n.comparators[0], ast.Constant):
                 out.append((n, {n.comparators[0].value}))
     return out
@@ -46,7 +51,7 @@ def run(ctx):
     ctx.touch(sa)
     # ---- L1
     namep = sa.posparams[1]
-    tabs = local_table(sa, namep)
+    tabs = local_table(sa, namep, p)
     keep = set().union(*[t for _, t in tabs]) if tabs else set()
     need = links | {"parent", "children", "target"}
     if need <= keep:
@@ -54,7 +59,7 @@ def run(ctx):
     else:
         ctx.viol("L1", sa, tabs[0][0] if tabs else sa.node, "names kept local by __setattr__ %s miss %s: such an assignment on the link is "
                  "written onto the target instead" % (sorted(keep), sorted(need - keep)), construct="__setattr__ local names miss %s" % sorted(need - keep))
-    gtabs = local_table(ga, ga.posparams[1])
+    gtabs = local_table(ga, ga.posparams[1], p)
     refuse = set().union(*[t for _, t in gtabs]) if gtabs else set()
     if links <= refuse:
         ctx.inst("L1", ga, gtabs[0][0], "names never forwarded %s ⊇ link fields" % sorted(refuse))
